@@ -1042,7 +1042,9 @@ def instruction(ctx):
 
         ctx_opening_bracket = ctx.save()
         if opening_bracket(ctx, maybe=True):
-            oper = code(ctx, break_on_closing_bracket=True)
+            ctx_bracket = ctx.save()
+            ctx_bracket.pos -= 1
+            oper = code(ctx, break_on_closing_bracket=True, ctx_start=ctx_bracket)
             oper.ctx = ctx_opening_bracket
             operands.append(oper)
 
@@ -1104,21 +1106,23 @@ def word_list(ctx):
 
 
 @Parser
-def code(ctx, break_on_closing_bracket=False):
-    ctx_start = ctx.save()
+def code(ctx, break_on_closing_bracket=False, ctx_start=None):
+    # The block starts at its opening bracket, if it has one
+    if ctx_start is None:
+        ctx_start = ctx.save()
 
     insns = []
 
     while not ctx.eof():
         ctx.skip_whitespace()
-        ctx_start = ctx.save()
+        ctx_insn_start = ctx.save()
         if break_on_closing_bracket and closing_bracket(ctx, maybe=True):
             break
 
         insn = (label | assignment | instruction | word_list)(ctx, report=(
             reports.critical,
             "invalid-insn",
-            (ctx_start, ctx_start, "Could not parse instruction starting from here")
+            (ctx_insn_start, ctx_insn_start, "Could not parse instruction starting from here")
         ))
         insns.append(insn)
 
